@@ -95,6 +95,7 @@ def skeleton(root) -> dict:
         f["first_instance_nchild"] = len(_children(first))
         kids = _children(first)
         f["primary_root_has_id"] = bool(kids) and "id" in kids[0].attrib
+        f["primary_root_id"] = kids[0].attrib.get("id") if kids else None
         f["primary_root"] = local(kids[0].tag) if kids else None
         # index of first instance among instance children of model
         mk = [k for k in _children(model) if k.tag == XF + "instance"]
